@@ -5,11 +5,50 @@ fn usage() -> ! {
     std::process::exit(2);
 }
 
+/// `xsgv repeat <in_thread> <fresh_threads>`: reads one JSON array of documents per line from
+/// stdin, prints one JSON array of distinct observations (as fnv hashes, first one in full when
+/// there are several) per line. Works in both builds; the hooks-off build is the shipped library
+fn repeat_cmd(args: &[String]) -> i32 {
+    use std::io::{BufRead, Write};
+    let in_thread: usize = args.get(1).and_then(|s| s.parse().ok()).unwrap_or(3);
+    let fresh: usize = args.get(2).and_then(|s| s.parse().ok()).unwrap_or(8);
+    xsgv::subject::silence_panics();
+    let stdin = std::io::stdin();
+    let stdout = std::io::stdout();
+    let mut out = std::io::BufWriter::new(stdout.lock());
+    for line in stdin.lock().lines() {
+        let line = match line {
+            Ok(l) => l,
+            Err(_) => return 2,
+        };
+        if line.trim().is_empty() {
+            continue;
+        }
+        let docs: Vec<String> = match serde_json::from_str(&line) {
+            Ok(d) => d,
+            Err(_) => return 2,
+        };
+        let outs = xsgv::subject::repeat_history(&docs, in_thread, fresh);
+        let v = if outs.len() == 1 {
+            serde_json::json!({"n": 1, "hash": format!("{:016x}", xsgv::ctx::fnv(&outs[0]))})
+        } else {
+            serde_json::json!({"n": outs.len(), "hash": format!("{:016x}", xsgv::ctx::fnv(&outs[0])), "outs": outs})
+        };
+        if writeln!(out, "{}", v).is_err() {
+            return 2;
+        }
+    }
+    0
+}
+
 #[cfg(feature = "hooks")]
 fn main() {
     let args: Vec<String> = std::env::args().skip(1).collect();
     if args.is_empty() {
         usage();
+    }
+    if args[0] == "repeat" {
+        std::process::exit(repeat_cmd(&args));
     }
     let prop = args[0].to_uppercase();
     let mut tier = match std::env::var("VERIF_TIER").ok().as_deref() {
@@ -44,5 +83,9 @@ fn main() {
 #[cfg(not(feature = "hooks"))]
 fn main() {
     let _ = (Ctx::new, Tier::Quick);
+    let args: Vec<String> = std::env::args().skip(1).collect();
+    if !args.is_empty() && args[0] == "repeat" {
+        std::process::exit(repeat_cmd(&args));
+    }
     usage();
 }
